@@ -7,9 +7,11 @@ At quiescence: every declared precedent has its edge, ancestors(X) contains ever
 influencer of X, and a differential influence test (perturb one input in a fresh compile; every
 formula whose value changes must have that input among its graph ancestors).
 """
+import re
+
 import networkx as nx
 
-from vp import wb, wbgen
+from vp import realbooks, wb, wbgen
 
 PROP = 'C04'
 LEVEL = 'exploration'
@@ -30,11 +32,14 @@ FLOORS = {
 FLOORS['quick']['declared:rowcol'] = 30
 FLOORS['quick']['failed_builds'] = 50
 FLOORS['quick']['graph_exports'] = 20
+FLOORS['quick']['real_book_cases'] = 20
+FLOORS['quick']['real_read_events'] = 1500
 ASSUMPTIONS = [
     'computed references (OFFSET / INDIRECT) are outside the statement and are not generated',
     'address strings are parsed by the harness itself (sheet!A1[:B2]); unbounded forms are matched by name',
 ]
 
+COMPUTED = re.compile(r'\b(offset|indirect)\(')
 STATE = {'comp': None, 'ctx': None, 'meta': None, 'spec': None, 'found': [], 'reads': set()}
 
 
@@ -77,6 +82,8 @@ def listener(event, info):
         return
     x = cell.address.address
     read = str(info['address'])
+    if STATE.get('skip_computed') and COMPUTED.search(formula.python_code or ''):
+        return      # OFFSET / INDIRECT read what they compute (outside of the statement); shipped workbooks use them
     form = (STATE['meta']['formulas'].get(x) or {}).get('form', 'internal')
     ctx.count('read_events')
     ctx.count(f'reads:{form}')
@@ -237,6 +244,8 @@ def one_workbook(ctx, spec, meta, order, config='mem', rng=None):
 def run(ctx):
     rng = ctx.rng
     i = 0
+    # read traces of the workbooks shipped with the repository
+    realbooks.run_cases(ctx, realbooks.c04_case, realbooks.acyclic_books(), 6 if ctx.quick else 60, fraction=0.3)
     while not ctx.out_of_time():
         i += 1
         spec, meta = wbgen.dag(rng, errors=True, formula_ratio=0.7)
@@ -267,5 +276,8 @@ def run(ctx):
 
 def replay(ctx, case):
     import random
+    if case.get('kind') == 'real-book':
+        realbooks.c04_case(ctx, case['book'], case['case_seed'])
+        return
     one_workbook(ctx, case['spec'], case['meta'], case['order'], case.get('config', 'mem'),
                  rng=random.Random(0))
